@@ -5,7 +5,6 @@ import (
 	"os"
 	"slices"
 	"sort"
-	"strings"
 	"sync"
 
 	"github.com/NethermindEth/juno/db"
@@ -164,7 +163,9 @@ func (d *Database) NewIterator(prefix []byte, withUpperBound bool) (db.Iterator,
 	// A nil upper bound (empty or all-0xff prefix) means "no upper bound", as in pebble.
 	bounded := withUpperBound && upperBound != nil
 	for k := range d.db {
-		if strings.HasPrefix(k, pr) && (!bounded || k < ub) {
+		// The prefix is only a lower bound, as in pebble: without an upper bound the
+		// iterator runs to the end of the keyspace.
+		if k >= pr && (!bounded || k < ub) {
 			keys = append(keys, k)
 		}
 	}
